@@ -118,7 +118,8 @@ def valid_mapping_rule(repo: Repo, chk: Check) -> None:
         j_ += 1
         texts = [fa.text for alt in s.state.alts for fa in [*alt.facts.values(), *s.extra] if fa.kind == "atom"]
         on_op = [t for t in texts if re.match(r"isinstance\(\w+, (phs\.)?(YieldOp|ChooseOp)\)$", t)]
-        if not on_op:
+        vacuous = [t for t in texts if re.search(r"(not \w+\.data_operands$)|(len\(\w+\.data_operands\) (==|<) [01]$)", t)]
+        if not on_op or vacuous:  # an operation without data operands has nothing to compare: not decided here
             raise AnalysisError(f"{s.where()}: the loop over the kernel's operations is left early under conditions this rule does not read: {texts[-3:]}")
         chk.bad("C20.valid-mapping", f"{f.key}:every-op#{j_}", s.where(),
                 f"under `{on_op[0]}` the operation is passed over (`{ast.unparse(s.node)}`) before its data operands are compared with the followed abstract operands: "
